@@ -45,6 +45,14 @@ impl Property for C07 {
             4 => 4 * msgs.largest,
             _ => msgs.largest + model::align(ty),
         };
+        // a third of the cases use an explicit buffer capacity anywhere from "just holds the largest
+        // message" upwards (rounded up to the alignment) instead of ::io()'s 2 * max_msg_len
+        let capacity = if t.chance(1, 3) {
+            let a = model::align(ty);
+            Some(model::round_up(msgs.largest + t.below(msgs.largest + 2 * a + 1), a).max(model::min_size(ty)))
+        } else {
+            None
+        };
         let total = msgs.total();
         let cuts = msgs.interesting_cuts(ty);
         let wchunks = gen_chunks(total, &cuts, &mut t);
@@ -56,7 +64,9 @@ impl Property for C07 {
         let mut sink = ScriptSink::new(wouts(&wchunks), WOut::Accept(usize::MAX), budget);
         st.eval(1);
         msgs.install_post_ops();
+        crate::io_glue::IO_CAPACITY.with(|c| c.set(capacity));
         let sends = lib(|| sh.io_send_blocking(&msgs.initial, &routes, max_msg_len, &mut sink, false));
+        crate::io_glue::IO_CAPACITY.with(|c| c.set(None));
         Msgs::clear_post_ops();
         let sends = match sends {
             Ok(s) => s,
@@ -85,20 +95,24 @@ impl Property for C07 {
         // receiver over exactly these bytes
         let mut source = ScriptSource::new(sink.data.clone(), routs(&rchunks), ROut::Deliver(usize::MAX), budget);
         st.eval(1);
-        let recvs = match lib(|| sh.io_recv_blocking(&mut source, max_msg_len, msgs.values.len() + 3, 0)) {
+        crate::io_glue::IO_CAPACITY.with(|c| c.set(capacity));
+        let recvs = lib(|| sh.io_recv_blocking(&mut source, max_msg_len, msgs.values.len() + 3, 0));
+        crate::io_glue::IO_CAPACITY.with(|c| c.set(None));
+        let recvs = match recvs {
             Ok(r) => r,
             Err(p) => crate::vfail!("panic", "{}: blocking receiver panicked: {}", name, p),
         };
         if let Err((k, m)) = check_received(&name, &msgs.values, &recvs.events, true) {
             crate::vfail!(
                 k,
-                "{} [messages {:?} (post-ops {:?}), sizes {:?}, max_msg_len {}, read chunks {:?}]",
+                "{} [messages {:?} (post-ops {:?}), sizes {:?}, max_msg_len {}, read chunks {:?}, explicit buffer capacity {:?}]",
                 m,
                 msgs.values.iter().map(|v| v.show()).collect::<Vec<_>>(),
                 msgs.post_ops,
                 msgs.starts,
                 max_msg_len,
-                rchunks
+                rchunks,
+                capacity
             );
         }
         // classification
@@ -110,6 +124,9 @@ impl Property for C07 {
         });
         if in_padding {
             st.label("read boundary inside trailing padding");
+        }
+        if capacity.is_some() {
+            st.label("explicit buffer capacity (IoBuffer::new)");
         }
         if msgs.post_ops.iter().any(|o| !o.is_empty()) {
             st.label("message modified through the send guard before send");
